@@ -6,6 +6,7 @@ Such a condition is piecewise constant in the variable and can only change truth
 evaluated at every change point and its neighbours (by substituting the literal and folding - nothing is executed).  Between two
 consecutive change points all conditions, hence the path taken and the shape of its result, are constant; so agreement with a
 reference function at all change points (the reference's own change points included) is agreement everywhere."""
+import re
 import absx
 
 def subst(t, var, val):
@@ -121,6 +122,19 @@ def pure_shift(t, var):
             t = t[2]; continue
         return False
 
+def range_atom(t):
+    """(x, lo, hi) of the test `x matches the range pattern lo..=hi` with integer bounds (None: open end); None for other terms"""
+    if t[0] == 'matches' and isinstance(t[2], str):
+        m = re.match(r'range (-?\d+|None)\.\.=(-?\d+|None)$', t[2])
+        if m:
+            return t[1], (None if m.group(1) == 'None' else int(m.group(1))), (None if m.group(2) == 'None' else int(m.group(2)))
+    return None
+
+def range_as_comparisons(t):
+    """the comparisons with constants a range test amounts to"""
+    x, lo, hi = range_atom(t)
+    return [('bin', 'Ge', x, ('lit', lo))] * (lo is not None) + [('bin', 'Le', x, ('lit', hi))] * (hi is not None)
+
 def fold(t, var, val):
     """The term with the variable replaced by the integer `val`, folded exactly: arithmetic of the integers (bin_term), `as` casts
     modulo the width of the target type, ilog2 / checked_ilog2 / leading_zeros of a known number, Option tests and payloads of a
@@ -178,6 +192,12 @@ def fold(t, var, val):
         if x[0] == 'ctor' and x[1] == t[2] and isinstance(t[3], int) and t[3] < len(x[2]):
             return x[2][t[3]]
         return ('variant', x) + tuple(t[2:])
+    if k == 'matches' and range_atom(t) is not None:
+        _, lo, hi = range_atom(t)
+        x = fold(t[1], var, val)
+        if x[0] == 'lit' and isinstance(x[1], int) and not isinstance(x[1], bool):
+            return ('lit', (lo is None or lo <= x[1]) and (hi is None or x[1] <= hi))
+        return ('matches', x, t[2])
     return tuple(fold(x, var, val) if isinstance(x, tuple) else x for x in t)
 
 def step_ok(t, var):
@@ -201,6 +221,8 @@ def step_ok(t, var):
         return ic is not None and ic[0] in STEP_CALLS and (pure_shift(t[2][0], var) or step_ok(t[2][0], var))
     if k == 'ctor':
         return all(step_ok(x, var) for x in t[2])
+    if k == 'matches' and range_atom(t) is not None:
+        return all(atom_ok(c, var) for c in range_as_comparisons(t)) or step_ok(t[1], var)
     return False
 
 def step_points(terms, var, lo, hi, extra=()):
@@ -212,6 +234,8 @@ def step_points(terms, var, lo, hi, extra=()):
         if t[0] == 'bin' and t[1] in CMP and atom_ok(t, var):
             atoms.append(t)
             return
+        if t[0] == 'matches' and range_atom(t) is not None:
+            atoms.extend(c for c in range_as_comparisons(t) if atom_ok(c, var))
         for x in t:
             if isinstance(x, tuple):
                 rec(x)
